@@ -19,10 +19,10 @@ class Info(object):
         self.team_workers = {}
         for tm in spec.get("teams", []):
             self.team_targets[tm["name"]] = set(self.tnames[i] for i in tm.get("targets", []))
-            self.team_workers[tm["name"]] = [w["name"] for w in tm.get("workers", [])]
+            self.team_workers[tm["name"]] = [(w.get("id") or w["name"]) for w in tm.get("workers", [])]
             for w in tm.get("workers", []):
-                self.workers[w["name"]] = w
-                self.worker_team[w["name"]] = tm["name"]
+                self.workers[w.get("id") or w["name"]] = w
+                self.worker_team[w.get("id") or w["name"]] = tm["name"]
         self.facilities = {}
         self.fac_wp = {}
         self.wp_targets = {}
@@ -33,11 +33,11 @@ class Info(object):
         for wp in spec.get("workplaces", []):
             self.wp[wp["name"]] = wp
             self.wp_targets[wp["name"]] = set(self.tnames[i] for i in wp.get("targets", []))
-            self.wp_facilities[wp["name"]] = [f["name"] for f in wp.get("facilities", [])]
+            self.wp_facilities[wp["name"]] = [(f.get("id") or f["name"]) for f in wp.get("facilities", [])]
             self.wp_inputs[wp["name"]] = [wpn[i] for i in wp.get("inputs", [])]
             for f in wp.get("facilities", []):
-                self.facilities[f["name"]] = f
-                self.fac_wp[f["name"]] = wp["name"]
+                self.facilities[f.get("id") or f["name"]] = f
+                self.fac_wp[f.get("id") or f["name"]] = wp["name"]
         self.comps = {}
         self.task_comp = {}
         self.comp_tasks = {}
@@ -99,7 +99,8 @@ class Info(object):
         return None
 
     def can_operate(self, wn, fn):
-        return self.workers[wn].get("fskills", {}).get(fn, 0.0) > EPS
+        # facility skills of a worker are keyed by the facility's *name*
+        return self.workers[wn].get("fskills", {}).get(self.facilities[fn]["name"], 0.0) > EPS
 
     def is_solo(self, name):
         o = self.workers.get(name) or self.facilities.get(name)
